@@ -55,27 +55,63 @@ def invertMeaning (a : Bits) : List Py.Act → Option Bits
 /-- `Bits.__lshift__` as the source has it now = `C16.shl`, for every content and every shift count. -/
 theorem lshift_eq (a : Bits) (n : Int) :
     (Gen.Src.lshift (a.length : Int) n).map (shlMeaning a) = (shl a n).map some := by
-  sorry
+  unfold Gen.Src.lshift shl
+  by_cases hn : n < 0
+  · simp [hn, Except.map]
+  by_cases hl : a.length = 0
+  · simp [hn, hl, Except.map]
+  have hk : (min n (a.length : Int)).toNat = min n.toNat a.length := by omega
+  have hc : (min n (a.length : Int) = (a.length : Int)) ↔ (min n.toNat a.length = a.length) := by omega
+  simp [hn, hl, Except.map, shlMeaning, absSlice, hk, hc]
 
 /-- `Bits.__rshift__` as the source has it now = `C16.shr`. -/
 theorem rshift_eq (a : Bits) (n : Int) :
     (Gen.Src.rshift (a.length : Int) n).map (shrMeaning a) = (shr a n).map some := by
-  sorry
+  unfold Gen.Src.rshift shr
+  by_cases hn : n < 0
+  · simp [hn, Except.map]
+  by_cases hl : a.length = 0
+  · simp [hn, hl, Except.map]
+  by_cases h0 : n = 0
+  · simp [hl, h0, Except.map, shrMeaning]
+  have hk : (min n (a.length : Int)).toNat = min n.toNat a.length := by omega
+  have hq : ((a.length : Int) - min n (a.length : Int)).toNat = a.length - min n.toNat a.length := by omega
+  have hc : ((0 : Int) = (a.length : Int) - min n (a.length : Int)) ↔ (a.length - min n.toNat a.length = 0) := by omega
+  simp [hn, hl, h0, Except.map, shrMeaning, absSlice, hk, hq, hc]
 
 /-- `BitArray.__ilshift__` as the source has it now = `C16.ishl`. -/
 theorem ilshift_eq (a : Bits) (n : Int) :
     (Gen.Src.ilshift (a.length : Int) n).map (ishlMeaning a) = (ishl a n).map some := by
-  sorry
+  unfold Gen.Src.ilshift ishl
+  by_cases hn : n < 0
+  · simp [hn, Except.map]
+  by_cases hl : a.length = 0
+  · simp [hn, hl, Except.map]
+  by_cases h0 : n = 0
+  · simp [hl, h0, Except.map, ishlMeaning]
+  have hk : (min n (a.length : Int)).toNat = min n.toNat a.length := by omega
+  simp [hn, hl, h0, Except.map, ishlMeaning, hk]
 
 /-- `BitArray.__irshift__` as the source has it now = `C16.ishr`. -/
 theorem irshift_eq (a : Bits) (n : Int) :
     (Gen.Src.irshift (a.length : Int) n).map (ishrMeaning a) = (ishr a n).map some := by
-  sorry
+  unfold Gen.Src.irshift ishr
+  by_cases hn : n < 0
+  · simp [hn, Except.map]
+  by_cases hl : a.length = 0
+  · simp [hn, hl, Except.map]
+  by_cases h0 : n = 0
+  · simp [hl, h0, Except.map, ishrMeaning]
+  have hk : (min n (a.length : Int)).toNat = min n.toNat a.length := by omega
+  simp [hn, hl, h0, Except.map, ishrMeaning, hk]
 
 /-- `Bits.__invert__` as the source has it now = `C16.bnot` (`bitstring.Error` for the empty bitstring). -/
 theorem invert_eq (a : Bits) :
     (Gen.Src.invert (a.length : Int)).map (invertMeaning a) = (bnot a).map some := by
-  sorry
+  unfold Gen.Src.invert bnot
+  by_cases hl : a.length = 0
+  · simp [hl, Except.map]
+  simp [hl, Except.map, invertMeaning]
 
 /-- Non-vacuity: on a concrete input the translated function really produces the three-effect trace. -/
 example : (Gen.Src.lshift 4 1).map (shlMeaning [true, false, true, true]) = .ok (some [false, true, true, false]) := by
